@@ -7,7 +7,10 @@
 //   Hd : -1 out of scope, 0 not initialized, k = per-kind serial of the backend object (hook H1),
 //        -2 = the handle points at an object that is no longer alive
 //   L  : live backend objects per kind,  D : destroyed-count per kind and serial,
-//   A  : memoryAllocated() through every initialized device handle,  an : registry anomalies.
+//   A / M : memoryAllocated() / maxMemoryAllocated() through every initialized device handle,
+//   an : registry anomalies.
+// With HR_LEAKCHECK=k LeakSanitizer looks for unreachable heap blocks after every k-th behaviour (all handle
+// variables destroyed at that point); a line {"leak":1,"upto":i} is written when it finds any.
 #include "replay_core.hpp"
 #include <occa.hpp>
 #include <occa/internal/core/device.hpp>
@@ -17,6 +20,8 @@
 #include <occa/internal/core/stream.hpp>
 #include <occa/internal/core/streamTag.hpp>
 #include <occa/internal/utils/verif.hpp>
+
+extern "C" int __lsan_do_recoverable_leak_check(void) __attribute__((weak));
 
 namespace v = occa::verif;
 
@@ -39,6 +44,7 @@ struct Slot {
   }
 };
 static std::vector<Slot> slots;
+static std::vector<occa::modeDevice_t*> seenDevices;  // to free devices a history leaves alive on purpose (dontUseRefs)
 static Slot &slot(const std::string &n) {
   for (auto &x : slots) if (x.name == n) return x;
   fprintf(stderr, "unknown slot %s\n", n.c_str());
@@ -66,16 +72,20 @@ static long handleSerial(const Slot &x) {
 }
 
 static std::string observe(bool err) {
-  std::string Hd = "[", A = "[", L = "[", D = "[";
+  std::string Hd = "[", A = "[", M = "[", L = "[", D = "[";
   for (size_t j = 0; j < slots.size(); ++j) {
     Slot &x = slots[j];
     long h = x.in() ? handleSerial(x) : -1;
-    long a = 0;
+    long a = 0, m = 0;
     if (x.kind == 'd' && h > 0) {
-      // isInitialized() must agree with the pointer projection
+      occa::modeDevice_t *md = x.d->getModeDevice();
+      bool known = false;
+      for (auto *q : seenDevices) known = known || (q == md);
+      if (!known) seenDevices.push_back(md);
       a = (long) x.d->memoryAllocated();
+      m = (long) x.d->maxMemoryAllocated();
     } else if (x.kind == 'd' && h == -2) {
-      a = -2;
+      a = m = -2;
     }
     if (x.in()) {
       bool init = false;
@@ -89,9 +99,10 @@ static std::string observe(bool err) {
       }
       if (init != (h != 0)) h = -3;  // cannot happen unless isInitialized() lies
     }
-    if (j) { Hd += ","; A += ","; }
+    if (j) { Hd += ","; A += ","; M += ","; }
     Hd += std::to_string(h);
     A += std::to_string(a);
+    M += std::to_string(m);
   }
   for (int k = 0; k < 7; ++k) {
     if (k) { L += ","; D += ","; }
@@ -105,7 +116,7 @@ static std::string observe(bool err) {
     D += "]";
   }
   return std::string("{\"err\":") + (err ? "1" : "0") + ",\"Hd\":" + Hd + "],\"L\":" + L + "],\"D\":" + D +
-         "],\"A\":" + A + "],\"an\":" + std::to_string(v::anomalies()) + "}";
+         "],\"A\":" + A + "],\"M\":" + M + "],\"an\":" + std::to_string(v::anomalies()) + "}";
 }
 
 static void doStep(const std::string &a, const std::string &sn, const std::string &tn, long n) {
@@ -167,7 +178,12 @@ static void doStep(const std::string &a, const std::string &sn, const std::strin
   } else if (a == "newDevice") {
     s.d = new occa::device(modeProps);
   } else if (a == "malloc") {
-    s.m = new occa::memory(tp->d->malloc<char>(bufBytes));
+    if (n == 1) {
+      // the use_host_pointer property without a source pointer: an ordinary allocation
+      s.m = new occa::memory(tp->d->malloc<char>(bufBytes, NULL, {{"use_host_pointer", true}}));
+    } else {
+      s.m = new occa::memory(tp->d->malloc<char>(bufBytes));
+    }
   } else if (a == "wrap") {
     s.m = new occa::memory(tp->d->wrapMemory<char>(hostBuffer, bufBytes));
   } else if (a == "slice") {
@@ -200,6 +216,7 @@ int main(int argc, char **argv) {
   rc::init(argc, argv);
   if (getenv("HR_MODE")) modeProps = std::string("{mode: '") + getenv("HR_MODE") + "'}";
   bool warm = getenv("HR_WARM") != 0;
+  long leakEvery = getenv("HR_LEAKCHECK") ? atol(getenv("HR_LEAKCHECK")) : 0, sinceCheck = 0;
   std::string line;
   while (rc::next(line)) {
     rc::watchdog(300);
@@ -233,6 +250,16 @@ int main(int argc, char **argv) {
     for (auto &x : slots) x.drop();
     out += "],\"fin\":" + observe(false) + "}";
     rc::emit(out);
+    // not part of the history: free the devices (and with them everything else) that dontUseRefs() kept alive
+    for (auto *md : seenDevices) {
+      if (v::serialOf(v::kDevice, md)) { occa::device h(md); h.free(); }
+    }
+    seenDevices.clear();
+    if (leakEvery > 0 && ++sinceCheck >= leakEvery && &__lsan_do_recoverable_leak_check) {
+      sinceCheck = 0;
+      if (__lsan_do_recoverable_leak_check())
+        rc::emit("{\"leak\":1,\"upto\":" + std::to_string(rc::cur_beh) + "}");
+    }
   }
   return 0;
 }
